@@ -310,6 +310,24 @@ pub fn plan(prop: &str, tier: Tier) -> Option<Plan> {
     if matches!(prop, "C04" | "C09") {
         jobs.push(job(eng::ctor::CopyCtorEngine, if q { 1600 } else { 40_000 }, "all"));
     }
+    // "borrowing, comparing, hashing or formatting never change the count" also when the borrow's callback unwinds:
+    // the callback-panic scripts of the fault engines (with_arc / with_arc_mut / with_raw_offset_arc closures, payload
+    // comparison / hash / format impls); their count clauses are tagged C04
+    // "exactly that block is returned with exactly the layout it was requested with" for constructors fed iterators
+    // whose len() / size_hint() lie or change between questions, and on the cleanup paths after a panicking callback:
+    // the tracking allocator's layout / double-free / interior-pointer clauses are this property's
+    if prop == "C05" {
+        for (e, w) in eng::ctor::fault_engines() {
+            jobs.push(jobb(e, w * if q { 2500 } else { 200_000 }, "all"));
+        }
+        rule.push_str(" | the iterator-driven constructors also run under the fault scripts of C07 (len()/size_hint() answers off by -2..+2 and changing between questions, a panic at the k-th callback): every block they release, on the normal and the cleanup path, must go back with the layout it was requested with.");
+    }
+    if prop == "C04" {
+        for (e, w) in eng::ctor::fault_engines() {
+            jobs.push(jobb(e, w * if q { 2500 } else { 200_000 }, "all"));
+        }
+        rule.push_str(" | callback-unwind scripts: closures and payload comparison / hash / format impls that panic inside with_arc, with_arc_mut, with_raw_offset_arc, ==, cmp, hash, {:?} on every handle kind; the count read afterwards through the surviving handles must be what it was.");
+    }
     // the `dbg` flavour: the library compiled with debug assertions and overflow checks ON (the profile a client's
     // `cargo test` uses). A debug_assert that is wrong, or a code path that differs under cfg(debug_assertions),
     // is invisible to the release-like flavours.
